@@ -202,6 +202,23 @@ def v1_index(doc):
     return els
 
 
+def v1_malformed_field(doc):
+    """(element name, field) of the first element field that is declared but is not a non-empty hex
+    string (docs: message, signature and the optional tweak are hex-encoded), or None."""
+    for e in doc["elements"]:
+        for f in ("message", "signature", "tweak"):
+            if f == "tweak" and f not in e:
+                continue
+            v = e.get(f)
+            try:
+                ok = isinstance(v, str) and len(bytes.fromhex(v)) > 0
+            except ValueError:
+                ok = False
+            if not ok:
+                return e.get("name"), f
+    return None
+
+
 def v1_structure(doc):
     """None when every target has a repetition-free path to the root, else a reason."""
     els = v1_index(doc)
